@@ -219,7 +219,7 @@ func checkC06(c *run.Ctx) {
 		case 2:
 			penv = map[string]string{"P1": "v1", "P2": "v2", "env": "lower", "node_version": "20", "v": "1"}
 		case 3:
-			penv = map[string]string{"A": "pa", "SHARED": "ps", "P3": "v3"}
+			penv = map[string]string{"A": "pa", "SHARED": "ps", "P3": "v3", "env::A": "looks namespaced already", "env::": "just the prefix", "env:A": "one colon"}
 		default:
 			penv = map[string]string{"A": "pa", "B": "pb", "C": "pc", "D": "pd", "SHARED": "ps"}
 		}
